@@ -179,6 +179,7 @@ type Node struct {
 	Conf   *viper.Viper
 	DBPath string // as given; the file is DBPath+".v4"
 	Era    Era
+	conn   *hookConnector
 }
 
 // DBFile is the on-disk name pegnetd derives from the configured path.
@@ -206,21 +207,29 @@ func OpenNode(dbPath string, era Era, chain *Chain, opts NodeOpts) (*Node, error
 	n := &Node{P: p, Conf: conf, DBPath: dbPath, Era: era}
 	n.Fake = NewFakeNode(chain)
 	p.FactomClient.Factomd.Transport = n.Fake
-	if opts.SQLHook != nil {
-		dsn := DBFile(dbPath)
-		if opts.WAL {
-			dsn += "?_journal=WAL&"
-		}
-		p.Pegnet.DB.Close()
-		p.Pegnet.DB = sql.OpenDB(NewHookConnector(dsn, opts.SQLHook))
+	// always run on the wrapping driver: it lets Close() release a connection
+	// that a crashed sync goroutine left inside a transaction
+	hv := opts.SQLHook
+	if hv == nil {
+		hv = &atomic.Value{}
 	}
+	dsn := DBFile(dbPath)
+	if opts.WAL {
+		dsn += "?_journal=WAL&"
+	}
+	p.Pegnet.DB.Close()
+	n.conn = NewHookConnector(dsn, hv)
+	p.Pegnet.DB = sql.OpenDB(n.conn)
 	return n, nil
 }
 
-// Close closes the database pool.
+// Close closes the database pool and every connection (like process exit).
 func (n *Node) Close() {
 	if n.P != nil && n.P.Pegnet != nil && n.P.Pegnet.DB != nil {
 		n.P.Pegnet.DB.Close()
+	}
+	if n.conn != nil {
+		n.conn.ForceClose()
 	}
 }
 
